@@ -213,9 +213,7 @@ def pat_union(a, b):
 
 
 PAT_STAR = ("*", "self::*", lambda n: is_elem(n))
-# 4th component: what XPath::getMatchScore answers in the unchanged code when it differs from the pattern's meaning
-# (`node()` also "matches" the document node when tested directly, as xsl:number does)
-PAT_NODE = ("node()", "parent::node()", lambda n: n.kind != "root", lambda n: True)
+PAT_NODE = ("node()", "parent::node()", lambda n: n.kind != "root")
 PAT_TEXT = ("text()", "self::text()", lambda n: n.kind == "text")
 PAT_COMMENT = ("comment()", "self::comment()", lambda n: n.kind == "comment")
 PAT_PI = ("processing-instruction()", "self::processing-instruction()", lambda n: n.kind == "pi")
